@@ -24,7 +24,7 @@
    5. C15_closed_failing_total  the run on the failing source does return (Ok, or ErrBadMagic
         when the failure is inside the leading magic) given n * (B + 2) + 1 fuel, for a decoder
         that expands its input by at most B bytes.  (No writer hypothesis is needed for this.) *)
-From Mcap Require ConstsTie LayoutTie. (* regenerated ties to /repo's source that this property's model relies on *)
+From Mcap Require ConstsTie LayoutTie DecisionTieL. (* regenerated ties to /repo's source that this property's model relies on *)
 From Coq Require Import List NArith ZArith Bool.
 From Coq.Strings Require Import Byte.
 From Mcap Require Import Source.
